@@ -30,7 +30,7 @@ def who_may_call(rep, rule, prog, cg):
                     rep.ok(rule, key, 'exact-size read', cs.loc())
                 else:
                     rep.bad(rule, key, cs.loc(), 'async protocol code calls %s: only exact-size reads are delivery-schedule independent (a short read leaves a hole, an over-read consumes the next message)' % d)
-    if n < 30:
+    if n < 20:
         rep.anchor_missing(rule, 'tokio read call sites in async protocols (found %d)' % n)
 
 
@@ -48,6 +48,8 @@ def run(ctx):
     skippers.arms_agree(rep, 'R12.b', prog)
     skippers.struct_loop(rep, 'R12.b', prog)
     skippers.struct_pairing(rep, 'R12.b', prog)
+    skippers.shared_skipper_is_order_neutral(rep, 'R12.b', prog)
+    skippers.binary_arm_reader_accepts_any_bytes(rep, 'R12.b', prog, cg)
     # the compact reader's field-id context / bool-in-header state is kept the same way by the in-memory and the async reader
     tp.compact_typestate(rep, 'R12.t', prog, cg)
     rep.floor('R12.a', 66)
